@@ -14,14 +14,14 @@ type TV struct {
 }
 
 type Env struct {
-	u     *Univ
-	vars  map[string]TV
-	old   *Env
-	loopEntry *Env // values on entry to the loop whose invariant is being translated (at_loop_entry)
-	deref func(ref string) (TV, bool) // content of the object a pointer term denotes, when the engine knows it
-	lets  map[string]*Expr
-	bound map[string]string
-	specs map[string]*SpecFn
+	u         *Univ
+	vars      map[string]TV
+	old       *Env
+	loopEntry *Env                        // values on entry to the loop whose invariant is being translated (at_loop_entry)
+	deref     func(ref string) (TV, bool) // content of the object a pointer term denotes, when the engine knows it
+	lets      map[string]*Expr
+	bound     map[string]string
+	specs     map[string]*SpecFn
 }
 
 type SpecFn struct {
